@@ -187,8 +187,8 @@ def build_case(name, typ, way, cand, off_ms, phase, probe_cmds, dbs=1):
 
 
 def gen_matrix(seed, tier, types=None, families=None):
-    """quick: every (type, way, candidate deadline, offset) with a seeded sample of probes and one
-    phase; thorough: the full product with every probe and several phases."""
+    """every (type, way, candidate deadline, offset, probe); quick: two seeded clock phases per
+    (type, way, deadline, offset); thorough: six phases."""
     r = random.Random(seed)
     types = types or DEFAULT_TYPES
     families = families or DEFAULT_FAMILIES
@@ -202,11 +202,11 @@ def gen_matrix(seed, tier, types=None, families=None):
                     if cand * 1000 + off < 0:
                         continue
                     if tier == "quick":
-                        chosen = r.sample(probes, 7)
-                        phases = [r.choice([0, 1, 250, 500, 998, 999])]
+                        chosen = probes
+                        phases = r.sample([0, 1, 250, 500, 998, 999], 2)
                     else:
                         chosen = probes
-                        phases = [0, 500, 999]
+                        phases = [0, 1, 250, 500, 998, 999]
                     for phase in phases:
                         if cand * 1000 - phase + off < 0:
                             continue
